@@ -33,6 +33,8 @@ CLAIMS = {
             "ONLY the keyword clause: a keyword replaces the word token only when it covers the whole word; the precedence/longest-match/ordering clauses are not decided"),
     "C07": ("bounded-write rule (interval tracking of each index over tests and increments on every path), who-may-call table for libc's allocator, field coverage of delete functions", "§4 C07",
             "discipline, not safety: every write into a constant-size array has its own bound; only alloc.c touches libc's allocator; delete functions release every owning field"),
+    "C15": ("determinism scan over all resolved calls/casts of tree-sitter-generate's MIR (expected zero + positive fixture); vet-before-advance monitor and gates on the state-merging licence", "§4 C15",
+            "no iteration over RandomState-hashed containers or other process-dependent sources; states are merged only after every consumed entry was vetted; tree equality of optimised/unoptimised parsers is not decided"),
     "C19": ("typestate monitor (lock held / dropped) and publish-after-success monitor over rustc MIR; who-may-call table for the compile functions; data-dependence of the compiler's output argument on temp_path", "§4 C19",
             "compile only under the lock, lock dropped on every exit, atomic publication via temp+rename after success, waiter re-checks freshness; interleavings and crash points themselves are not decided"),
     "C20": ("field-flow tracing of TestCorrection arguments, type-aware taint from the reader's delimiter tuple to the entry, path counting of recorded corrections with correlated pure conditions (rustc MIR)", "§4 C20",
